@@ -417,7 +417,9 @@ def _roundtrip(db, rep, rule_prefix=''):
                     return ST[kind(v)]
                 if last in ('E', 'T', 'B'):
                     if last == 'B' and kind(v) == 'collection':
-                        return Obj(__kind__='sdset', v=v, elems=[V(x) for x in sorted(v, key=repr)])
+                        if o.get('__set__') is None or o['__set__']['v'] != v:
+                            o['__set__'] = Obj(__kind__='sdset', v=v, elems=[V(x) for x in sorted(v, key=repr)])
+                        return o['__set__']          # one set object per value: begin() and end() of the same set must agree
                     return o
                 if last == 'ModifyB':
                     return Obj(__kind__='sdmod', owner=o)
@@ -458,6 +460,16 @@ def _roundtrip(db, rep, rule_prefix=''):
                         walk(c)
             walk(o['v'])
             return None
+        if n['k'] == 'CXXOperatorCallExpr' and n.get('op') in ('*', '->') and 'PolyFCIterator' in (n.get('callee') or '') and n.get('args'):
+            p_ = it.eval(fn, S[n['args'][0]], env)
+            if isinstance(p_, tuple) and len(p_) == 3 and p_[0] == 'it':
+                if not (0 <= p_[2] < len(p_[1])):
+                    raise OutOfFragment('dereference of the end iterator of a set at %s' % fn.loc(n))
+                return p_[1][p_[2]]
+        if cs in ('std::begin', 'std::end') and n.get('args'):
+            o = it.eval(fn, S[n['args'][0]], env)
+            if isinstance(o, Obj) and o.get('__kind__') == 'sdset':
+                return ('it', o['elems'], 0 if cs == 'std::begin' else len(o['elems']))
         if cs == '__assert_fail':
             return None
         if cs.startswith(('std::vector::',)) and last in ('emplace_back', 'push_back') and 'obj' in n and len(n.get('args', [])) == 1:
@@ -543,3 +555,40 @@ def _roundtrip(db, rep, rule_prefix=''):
         r3.violation('Pack/Unpack', '%s:%d' % (unpack.file, unpack.line), bad)
     else:
         r3.ok('Pack/Unpack', 'round trip holds on %d values of %d typifications' % (cases, len(family)), '%s:%d' % (unpack.file, unpack.line))
+    # ---- CheckCompatible: the gate in front of the packer (rsValuesFacet::SetStructureData tests it before a value is stored or packed)
+    cc = db.fn(O_ + 'CheckCompatible', required=False)
+    r4 = rep.rule(rule_prefix + 'r4', 'COMPATIBLE: CheckCompatible(value, T) holds exactly when the value has the structure of T at every level and in every element (the packer dereferences the typification in step with the value)', 1)
+    if cc is None:
+        r4.broken('anchor vanished: ccl::object::CheckCompatible')
+        return
+
+    def compat(v, t):
+        if t[0] == 'e':
+            return isinstance(v, int)
+        if t[0] == 'b':
+            return isinstance(v, frozenset) and all(compat(x, t[1]) for x in v)
+        return isinstance(v, tuple) and len(v) == len(t[1]) and all(compat(x, c) for x, c in zip(v, t[1]))
+    probes = [(t, v) for t, vs in family for v in vs]
+    probes += [
+        (B(B(X)), fs({fs({1}), fs({(1, 2), (3, 4)})})),           # the second element is a set of pairs: packing it walks a basic type as a tuple
+        (B(B(X)), fs({fs({(1, 2)}), fs({3})})),
+        (B(X), fs({1, (2, 3)})), (B(X), fs({(2, 3), 4, 5})), (B(Pt(X, X)), fs({(1, 2), 3})), (B(Pt(X, X)), fs({(1, 2), (1, 2, 3)})),
+        (Pt(X, X), (1, 2, 3)), (Pt(X, B(X)), (1, fs({2, (3, 4)}))), (X, fs()), (B(X), 3), (Pt(X, X), fs({1})),
+        (B(Pt(B(X), X)), fs({(fs({1}), 2), (fs({(1, 1)}), 3)})),
+    ]
+    bad4, n4 = None, 0
+    try:
+        for t, v in probes:
+            n4 += 1
+            got = mkint(None).call(cc, [V(v), Tm(t)])
+            want = compat(v, t)
+            if bool(got) != want and bad4 is None:
+                bad4 = 'CheckCompatible(%s, %s) is %s: the value %s the structure of the typification%s' % (
+                    show(v), C03._show_t(t), bool(got), 'has' if want else 'does not have', '' if want else ' (only the first element of a set is inspected, so the packer then dereferences the wrong alternative)')
+    except OutOfFragment as e:
+        r4.broken('CheckCompatible outside the evaluable fragment: %s' % e)
+        return
+    if bad4:
+        r4.violation('CheckCompatible', '%s:%d' % (cc.file, cc.line), bad4)
+    else:
+        r4.ok('CheckCompatible', 'agrees with structural compatibility on %d (typification, value) pairs, including heterogeneous sets' % n4, '%s:%d' % (cc.file, cc.line))
